@@ -43,3 +43,18 @@ class AppLab:
         if a.rep == b"":
             a.rep = None
         return a
+
+    def ask_segments(self, payload, cuts, v6=None):
+        """Deliver payload over a fresh validated TCP flow cut at the given positions; returns the list of
+        application payloads (None for bare ACK / silence) per segment."""
+        from .flow import cut
+        rng = self.ctx.rng
+        e = gen.endp(rng, self.cfg, rng.random() < 0.5 if v6 is None else v6)
+        f = Flow(self.ctx, e, gen.rnd_port(rng), gen.rnd_port(rng))
+        if f.syn() is None:
+            return None
+        out = []
+        for seg in cut(payload, cuts):
+            rep = app_payload(f.data(seg))
+            out.append(rep if rep else None)
+        return out
